@@ -16,6 +16,7 @@ import Driver.Scan
 import Driver.Block
 import Driver.Doc
 import Driver.Corpus
+import Driver.Md
 open Lean
 
 def dispatch (op : String) (j : Json) : Except String Json :=
@@ -42,6 +43,7 @@ def dispatch (op : String) (j : Json) : Except String Json :=
   | "unescape" => Driver.Doc.unescapeOp j
   | "corpus.dump" => Driver.Corpus.dumpOp j
   | "corpus.run" => Driver.Corpus.runOp j
+  | "md.render" => Driver.Md.renderOp j
   | "ping" => pure (Json.str "pong")
   | _ => throw s!"unknown op {op}"
 
